@@ -1,84 +1,11 @@
-(* Xlsx/SkeletonProofs.v — the indexing guard of the importer skeleton and its no-Panic theorem;
-   the refutations of the unguarded statement (witness packages evaluated by vm_compute). *)
+(* Xlsx/SkeletonProofs.v — the importer skeleton never panics.
+
+   Until the repairs 2db1935, f8b4521, d5aa85e, dfbff56, 256a2e8, 4ecd40d, 1babd25, b7d4aff, b5c23c2 the
+   statement was refuted by 17 witness packages and only a guarded form held (the guard listed the
+   indexing assumptions of the reader).  Every one of those `[0]` / `[key]` / `unwrap` / slice
+   sites is now an `Err` arm (or guarded by `is_char_boundary`), the model follows the code, and
+   the statement holds at full strength: for EVERY abstract package the outcome is Ok or Err. *)
 From IronCalc Require Import Base.Prelude Xlsx.Skeleton.
-
-(* ---------------------------------------------------------------------------------------------- *)
-(* the guard: a decidable, structural predicate on packages.  Each conjunct names one indexing
-   assumption of the reader; none of them mentions the reader's control flow. *)
-
-Definition nonempty {A} (l : list A) : bool := match l with [] => false | _ => true end.
-
-Fixpoint all_nodes (P : xml -> bool) (x : xml) : bool :=
-  match x with Elem _ _ _ ks => P x && forallb (all_nodes P) ks end.
-
-Definition tree_ok (P : xml -> bool) (f : fstate) : bool :=
-  match f with Tree x => P x | _ => true end.
-
-(* G-rgb: no `rgb` attribute whose byte 2 falls inside a character (util.rs `raw[2..]`) *)
-Definition color_ok (x : xml) : bool :=
-  match attr A_RGB x with Some v => rgb_slice_ok v | None => true end.
-
-(* G-styles: styles.xml has the six containers that are indexed with [0] *)
-Definition styles_containers (ss : xml) : bool :=
-  nonempty (kids_with T_FONTS ss) && nonempty (kids_with T_FILLS ss) &&
-  nonempty (kids_with T_BORDERS ss) && nonempty (kids_with T_CELLSTYLEXFS ss) &&
-  nonempty (kids_with T_CELLSTYLES ss) && nonempty (kids_with T_CELLXFS ss).
-
-(* G-comment: every <t> below a child of a <commentList> has text (`n.text().unwrap()`) *)
-Definition comment_texts_ok (x : xml) : bool :=
-  forallb (fun cl => forallb (fun c => forallb has_text (desc_with T_T c)) (children cl))
-          (kids_with T_COMMENTLIST x).
-
-Definition id_matches (v : aval) (r : xml) : bool :=
-  match attr A_ID r with Some i => aval_eqb i v | None => false end.
-Definition is_ws_node (r : xml) : bool :=
-  match attr A_TYPE r with Some t => ty_class t =? 0 | None => false end.
-
-(* G-target: comments / table targets of sheet relationships survive `replace_range(..2, _)` *)
-Definition srel_node_ok (x : xml) : bool :=
-  match attr A_TYPE x, attr A_TARGET x with
-  | Some t, Some g =>
-    let c := ty_class t in
-    if c =? 1 then replace_range_ok g
-    else if c =? 3 then match abs_part g with Some _ => true | None => replace_range_ok g end
-    else true
-  | _, _ => true
-  end.
-
-(* G-dir: the Target of every worksheet relationship contains "/worksheets/" (`v[1]`).
-   (The <sheetData> conjunct was dropped when 2db1935 turned the `[0]` into an error.) *)
-Definition ws_rel_ok (p : pkg) (r : xml) : bool :=
-  if is_ws_node r then
-    match attr A_TARGET r with
-    | Some g =>
-      match ws_part g with
-      | None => false
-      | Some _ => true
-      end
-    | None => true
-    end
-  else true.
-
-(* G-names: if there are defined names, some sheet resolves to worksheet relationships only
-   (`worksheets[0]` in reparse_formula_hack) *)
-Definition names_have_sheet (doc rd : xml) : bool :=
-  negb (nonempty (desc_with T_DEFINEDNAME doc)) ||
-  existsb (fun s => match attr A_RID s with
-                    | Some v => existsb (id_matches v) (desc_with T_RELATIONSHIP rd) &&
-                                forallb (fun r => implb (id_matches v r) (is_ws_node r))
-                                        (desc_with T_RELATIONSHIP rd)
-                    | None => false
-                    end) (desc_with T_SHEET doc).
-
-Definition guard (p : pkg) : bool :=
-  tree_ok (fun ss => styles_containers ss && all_nodes color_ok ss) (p_styles p) &&
-  forallb (fun kf => tree_ok (fun x => all_nodes color_ok x && comment_texts_ok x) (snd kf)) (p_parts p) &&
-  forallb (fun kf => tree_ok (fun d => forallb srel_node_ok (kids_with T_RELATIONSHIP d)) (snd kf)) (p_srels p) &&
-  match p_wb p, p_rels p with
-  | Tree doc, Tree rd =>
-    forallb (ws_rel_ok p) (desc_with T_RELATIONSHIP rd) && names_have_sheet doc rd
-  | _, _ => true
-  end.
 
 (* ---------------------------------------------------------------------------------------------- *)
 (* generic lemmas *)
@@ -184,8 +111,8 @@ Qed.
 Lemma first_or_panic_in {A} (l : list A) a : first_or_panic l = Ok a -> In a l.
 Proof. destruct l; cbn; intros H; inversion H; subst; left; reflexivity. Qed.
 
-Lemma first_or_panic_np {A} (l : list A) : nonempty l = true -> first_or_panic l <> Panic.
-Proof. destruct l; cbn; intros H; discriminate. Qed.
+Lemma first_or_err_np {A} (l : list A) : first_or_err l <> Panic.
+Proof. destruct l; discriminate. Qed.
 
 (* unconditional "never panics" goals *)
 Ltac np_step :=
@@ -198,6 +125,7 @@ Ltac np_step :=
   | |- cell_of _ <> Panic => apply cell_of_np
   | |- range_of _ <> Panic => apply range_of_np
   | |- open_part _ _ <> Panic => apply open_part_np
+  | |- first_or_err _ <> Panic => apply first_or_err_np
   | |- oiter _ _ <> Panic => apply oiter_np; intros ? ?
   | |- Ok _ <> Panic => discriminate
   | |- Err <> Panic => discriminate
@@ -207,180 +135,62 @@ Ltac np_step :=
 Ltac np := unfold parse_i32, parse_u32, parse_usize; repeat np_step.
 
 (* ---------------------------------------------------------------------------------------------- *)
-(* tree navigation *)
-
-Lemma all_nodes_self P x : all_nodes P x = true -> P x = true.
-Proof. destruct x; cbn [all_nodes]; intros H; apply andb_true_iff in H; tauto. Qed.
-
-Lemma all_nodes_text P : P text_node = true -> all_nodes P text_node = true.
-Proof. unfold text_node. intros H. cbn [all_nodes forallb]. rewrite H. reflexivity. Qed.
-
-Lemma all_nodes_child P x k :
-  P text_node = true -> all_nodes P x = true -> In k (children x) -> all_nodes P k = true.
-Proof.
-  intros Ht H Hk. destruct x as [t a tx ks]. cbn [all_nodes] in H.
-  apply andb_true_iff in H as [_ H]. rewrite forallb_forall in H.
-  unfold children in Hk; cbn [has_text elems_of] in Hk. destruct tx.
-  - destruct Hk as [<-|Hk]; [apply all_nodes_text; exact Ht|apply H; exact Hk].
-  - apply H; exact Hk.
-Qed.
-
-Lemma kids_with_in t x k : In k (kids_with t x) -> In k (children x).
-Proof. unfold kids_with. intros H. apply filter_In in H. tauto. Qed.
-
-Lemma color_ok_text : color_ok text_node = true.
-Proof. reflexivity. Qed.
-
-Lemma all_color_kid t x k :
-  all_nodes color_ok x = true -> In k (kids_with t x) -> all_nodes color_ok k = true.
-Proof. intros H Hk. eapply all_nodes_child; [exact color_ok_text|exact H|eapply kids_with_in; exact Hk]. Qed.
-
-Lemma all_color_child x k :
-  all_nodes color_ok x = true -> In k (children x) -> all_nodes color_ok k = true.
-Proof. intros H Hk. eapply all_nodes_child; [exact color_ok_text|exact H|exact Hk]. Qed.
-
 (* ---------------------------------------------------------------------------------------------- *)
-(* util.rs / styles.rs *)
+(* one lemma per reader function *)
 
-Lemma color_skel_np x : color_ok x = true -> color_skel x <> Panic.
+Lemma color_skel_np x : color_skel x <> Panic.
+Proof. unfold color_skel. np. Qed.
+
+Lemma font_skel_np x : font_skel x <> Panic.
+Proof. unfold font_skel. apply oiter_np. intros; apply color_skel_np. Qed.
+
+Lemma pattern_fill_skel_np x : pattern_fill_skel x <> Panic.
 Proof.
-  unfold color_ok, color_skel. destruct (attr A_RGB x) as [v|].
-  - intros ->. discriminate.
-  - intros _. np.
+  unfold pattern_fill_skel. apply oiter_np. intros c _.
+  destruct (_ || _); [apply color_skel_np|discriminate].
 Qed.
 
-Lemma color_skel_np' x : all_nodes color_ok x = true -> color_skel x <> Panic.
-Proof. intros H. apply color_skel_np. apply all_nodes_self. exact H. Qed.
-
-Lemma font_skel_np x : all_nodes color_ok x = true -> font_skel x <> Panic.
+Lemma fill_skel_np x : fill_skel x <> Panic.
 Proof.
-  intros H. unfold font_skel. apply oiter_np. intros c Hc.
-  apply color_skel_np'. eapply all_color_kid; eassumption.
+  unfold fill_skel. destruct (kids_with T_PATTERNFILL x) as [|pf [|? ?]]; try discriminate.
+  apply pattern_fill_skel_np.
 Qed.
 
-Lemma pattern_fill_skel_np x : all_nodes color_ok x = true -> pattern_fill_skel x <> Panic.
+Lemma side_skel_np x : side_skel x <> Panic.
 Proof.
-  intros H. unfold pattern_fill_skel. apply oiter_np. intros c Hc.
-  destruct (_ || _); [|discriminate].
-  apply color_skel_np'. eapply all_color_child; eassumption.
-Qed.
-
-Lemma fill_skel_np x : all_nodes color_ok x = true -> fill_skel x <> Panic.
-Proof.
-  intros H. unfold fill_skel. destruct (kids_with T_PATTERNFILL x) as [|pf [|? ?]] eqn:E; try discriminate.
-  apply pattern_fill_skel_np. eapply all_color_kid; [exact H|]. rewrite E. left; reflexivity.
-Qed.
-
-Lemma side_skel_np x : all_nodes color_ok x = true -> side_skel x <> Panic.
-Proof.
-  intros H. unfold side_skel. destruct (kids_with T_LEFT x) as [|b [|? ?]] eqn:E; try discriminate.
+  unfold side_skel. destruct (kids_with T_LEFT x) as [|b [|? ?]]; try discriminate.
   destruct (attr A_STYLE b); [|discriminate].
-  destruct (kids_with T_COLOR b) as [|c [|? ?]] eqn:Ec; try discriminate.
-  apply color_skel_np'. eapply all_color_kid; [|rewrite Ec; left; reflexivity].
-  eapply all_color_kid; [exact H|]. rewrite E. left; reflexivity.
+  destruct (kids_with T_COLOR b) as [|c [|? ?]]; try discriminate. apply color_skel_np.
 Qed.
 
-Lemma dxf_skel_np x : all_nodes color_ok x = true -> dxf_skel x <> Panic.
+Lemma dxf_skel_np x : dxf_skel x <> Panic.
 Proof.
-  intros H. unfold dxf_skel. apply oiter_np. intros c Hc.
-  assert (Hc' : all_nodes color_ok c = true) by (eapply all_color_child; eassumption).
-  destruct (has_tag T_FONT c); [apply font_skel_np; exact Hc'|].
-  destruct (has_tag T_FILL c); [apply fill_skel_np; exact Hc'|].
-  destruct (has_tag T_BORDER c); [apply side_skel_np; exact Hc'|discriminate].
+  unfold dxf_skel. apply oiter_np. intros c _.
+  destruct (has_tag T_FONT c); [apply font_skel_np|].
+  destruct (has_tag T_FILL c); [apply fill_skel_np|].
+  destruct (has_tag T_BORDER c); [apply side_skel_np|discriminate].
 Qed.
 
-Lemma load_styles_np f :
-  tree_ok (fun ss => styles_containers ss && all_nodes color_ok ss) f = true ->
-  load_styles_skel f <> Panic.
+Lemma load_styles_np f : load_styles_skel f <> Panic.
 Proof.
-  destruct f as [| |ss]; cbn [tree_ok load_styles_skel]; try discriminate.
-  intros H. apply andb_true_iff in H as [Hc Ha].
-  unfold styles_containers in Hc.
-  repeat (apply andb_true_iff in Hc as [Hc ?]).
-  apply obind_np; [apply first_or_panic_np; assumption|]. intros fonts Hf.
-  apply first_or_panic_in in Hf.
-  apply obind_np.
-  { apply oiter_np. intros x Hx. apply font_skel_np.
-    eapply all_color_child; [|exact Hx]. eapply all_color_kid; eassumption. }
-  intros _ _.
-  apply obind_np; [apply first_or_panic_np; assumption|]. intros fills Hfi.
-  apply first_or_panic_in in Hfi.
-  apply obind_np.
-  { apply oiter_np. intros x Hx. apply fill_skel_np.
-    eapply all_color_child; [|exact Hx]. eapply all_color_kid; eassumption. }
-  intros _ _.
-  apply obind_np; [apply first_or_panic_np; assumption|]. intros borders Hb.
-  apply first_or_panic_in in Hb.
-  apply obind_np.
-  { apply oiter_np. intros x Hx. apply side_skel_np.
-    eapply all_color_child; [|exact Hx]. eapply all_color_kid; eassumption. }
-  intros _ _.
-  apply obind_np; [apply first_or_panic_np; assumption|]. intros _ _.
-  apply obind_np; [apply first_or_panic_np; assumption|]. intros cs _.
+  destruct f as [| |ss]; cbn [load_styles_skel]; try discriminate.
+  apply obind_np; [apply first_or_err_np|]. intros fonts _.
+  apply obind_np; [apply oiter_np; intros; apply font_skel_np|]. intros _ _.
+  apply obind_np; [apply first_or_err_np|]. intros fills _.
+  apply obind_np; [apply oiter_np; intros; apply fill_skel_np|]. intros _ _.
+  apply obind_np; [apply first_or_err_np|]. intros borders _.
+  apply obind_np; [apply oiter_np; intros; apply side_skel_np|]. intros _ _.
+  apply obind_np; [apply first_or_err_np|]. intros _ _.
+  apply obind_np; [apply first_or_err_np|]. intros cs _.
   apply obind_np; [np|]. intros _ _.
-  apply obind_np; [apply first_or_panic_np; assumption|]. intros cx _.
+  apply obind_np; [apply first_or_err_np|]. intros cx _.
   apply obind_np; [np|]. intros _ _.
-  destruct (kids_with T_DXFS ss) as [|d ?] eqn:Ed; [discriminate|].
-  apply oiter_np. intros x Hx. apply dxf_skel_np.
-  eapply all_color_child; [|exact Hx]. eapply all_color_kid; [exact Ha|]. rewrite Ed. left; reflexivity.
+  destruct (kids_with T_DXFS ss) as [|d ?]; [discriminate|].
+  apply oiter_np. intros; apply dxf_skel_np.
 Qed.
-
-(* ---------------------------------------------------------------------------------------------- *)
-(* workbook.rs / load_relationships *)
 
 Lemma sheet_skel_np x : sheet_skel x <> Panic.
 Proof. unfold sheet_skel. np. Qed.
-
-Lemma sheet_skel_rid x v : sheet_skel x = Ok v -> attr A_RID x = Some v.
-Proof.
-  unfold sheet_skel, req.
-  destruct (attr A_NAME x); cbn [obind]; [|discriminate].
-  destruct (attr A_SHEETID x) as [s|]; cbn [obind]; [|discriminate].
-  destruct (parse_u32 s); cbn [obind]; try discriminate.
-  destruct (attr A_RID x) as [r|]; cbn [obind]; [|discriminate].
-  destruct (attr A_STATE x) as [[]|]; try discriminate.
-  - destruct (_ && _); [|discriminate]. intros H; inversion H; reflexivity.
-  - intros H; inversion H; reflexivity.
-Qed.
-
-Lemma rel_skel_np x : rel_skel x <> Panic.
-Proof. unfold rel_skel. np. Qed.
-
-Lemma rel_skel_inv x r :
-  rel_skel x = Ok r ->
-  attr A_ID x = Some (r_id r) /\ attr A_TYPE x = Some (r_type r) /\ attr A_TARGET x = Some (r_target r).
-Proof.
-  unfold rel_skel, req.
-  destruct (attr A_ID x); cbn [obind]; [|discriminate].
-  destruct (attr A_TYPE x); cbn [obind]; [|discriminate].
-  destruct (attr A_TARGET x); cbn [obind]; [|discriminate].
-  intros H; inversion H; subst; cbn. auto.
-Qed.
-
-Lemma load_rels_np f : load_rels_skel f <> Panic.
-Proof.
-  destruct f; cbn [load_rels_skel]; try discriminate.
-  apply omap_np. intros; apply rel_skel_np.
-Qed.
-
-Lemma rel_lookup_in id l r : rel_lookup id l = Some r -> In r l /\ aval_eqb (r_id r) id = true.
-Proof.
-  induction l as [|a l IH]; cbn [rel_lookup]; [discriminate|].
-  destruct (rel_lookup id l) as [r'|].
-  - intros H; inversion H; subst. destruct (IH eq_refl) as [I E]. split; [right; exact I|exact E].
-  - destruct (aval_eqb (r_id a) id) eqn:E; [|discriminate].
-    intros H; inversion H; subst. split; [left; reflexivity|exact E].
-Qed.
-
-Lemma rel_lookup_some id l r :
-  In r l -> aval_eqb (r_id r) id = true -> rel_lookup id l <> None.
-Proof.
-  induction l as [|a l IH]; cbn [rel_lookup]; intros I E; [destruct I|].
-  destruct (rel_lookup id l) eqn:El; [discriminate|].
-  destruct I as [->|I].
-  - rewrite E. discriminate.
-  - exfalso. apply (IH I E). reflexivity.
-Qed.
 
 Lemma defined_name_skel_np n x : defined_name_skel n x <> Panic.
 Proof.
@@ -393,75 +203,53 @@ Lemma load_workbook_np f : load_workbook_skel f <> Panic.
 Proof.
   destruct f as [| |doc]; cbn [load_workbook_skel]; try discriminate.
   apply obind_np; [apply omap_np; intros; apply sheet_skel_np|].
-  intros rids Hr. apply obind_np; [|intros; discriminate].
-  apply oiter_np. intros x Hx. apply defined_name_skel_np.
+  intros rids _. apply obind_np; [|intros; discriminate].
+  apply oiter_np. intros; apply defined_name_skel_np.
 Qed.
 
-Lemma load_workbook_inv f rids n :
-  load_workbook_skel f = Ok (rids, n) ->
-  exists doc, f = Tree doc /\ omap sheet_skel (desc_with T_SHEET doc) = Ok rids /\
-              n = Z.of_nat (length (desc_with T_DEFINEDNAME doc)).
+Lemma rel_skel_np x : rel_skel x <> Panic.
+Proof. unfold rel_skel. np. Qed.
+
+Lemma load_rels_np f : load_rels_skel f <> Panic.
 Proof.
-  destruct f as [| |doc]; cbn [load_workbook_skel]; try discriminate.
-  destruct (omap sheet_skel (desc_with T_SHEET doc)) as [r| |] eqn:E; cbn [obind]; try discriminate.
-  destruct (oiter (defined_name_skel (Z.of_nat (length r))) (desc_with T_DEFINEDNAME doc));
-    cbn [obind]; try discriminate.
-  intros H; inversion H; subst. exists doc. split; [reflexivity|]. split; [exact E|reflexivity].
+  destruct f; cbn [load_rels_skel]; try discriminate.
+  apply omap_np. intros; apply rel_skel_np.
 Qed.
-
-Lemma load_rels_inv f rels :
-  load_rels_skel f = Ok rels -> exists rd, f = Tree rd /\ omap rel_skel (desc_with T_RELATIONSHIP rd) = Ok rels.
-Proof.
-  destruct f as [| |rd]; cbn [load_rels_skel]; try discriminate.
-  intros H. exists rd. auto.
-Qed.
-
-(* ---------------------------------------------------------------------------------------------- *)
-(* worksheets.rs *)
 
 Lemma load_table_skel_np parts k : load_table_skel parts k <> Panic.
 Proof. unfold load_table_skel. np. Qed.
 
-Definition parts_ok (parts : list (Z * fstate)) : bool :=
-  forallb (fun kf => tree_ok (fun x => all_nodes color_ok x && comment_texts_ok x) (snd kf)) parts.
+Lemma comment_skel_np c : comment_skel c <> Panic.
+Proof. unfold comment_skel. np. Qed.
 
-Lemma parts_ok_open parts k x :
-  parts_ok parts = true -> open_part parts k = Ok x ->
-  all_nodes color_ok x = true /\ comment_texts_ok x = true.
+Lemma load_comments_skel_np parts k : load_comments_skel parts k <> Panic.
 Proof.
-  intros H Ho. apply open_part_inv in Ho as [k' [_ L]].
-  apply lookup_in in L as [k'' I].
-  unfold parts_ok in H. rewrite forallb_forall in H. specialize (H _ I).
-  cbn [snd tree_ok] in H. apply andb_true_iff in H. exact H.
+  unfold load_comments_skel. apply obind_np; [apply open_part_np|]. intros ws _.
+  destruct (kids_with T_COMMENTLIST ws) as [|cl [|? ?]]; try discriminate.
+  apply oiter_np. intros; apply comment_skel_np.
 Qed.
 
-Lemma load_comments_skel_np parts k : parts_ok parts = true -> load_comments_skel parts k <> Panic.
+Lemma sheet_rel_skel_np parts x : sheet_rel_skel parts x <> Panic.
 Proof.
-  intros H. unfold load_comments_skel. apply obind_np; [apply open_part_np|].
-  intros ws Hws. destruct (parts_ok_open _ _ _ H Hws) as [_ Hc].
-  destruct (kids_with T_COMMENTLIST ws) as [|cl [|? ?]] eqn:E; try discriminate.
-  unfold comment_texts_ok in Hc. rewrite E in Hc. cbn [forallb] in Hc.
-  apply andb_true_iff in Hc as [Hc _]. rewrite forallb_forall in Hc.
-  apply oiter_np. intros c Hcin. specialize (Hc _ Hcin). rewrite forallb_forall in Hc.
-  unfold comment_skel. apply obind_np; [|intros; np].
-  apply oiter_np. intros t Ht. rewrite (Hc _ Ht). discriminate.
-Qed.
-
-Lemma sheet_rel_skel_np parts x :
-  parts_ok parts = true -> srel_node_ok x = true -> sheet_rel_skel parts x <> Panic.
-Proof.
-  intros Hp H. unfold sheet_rel_skel, req. unfold srel_node_ok in H.
+  unfold sheet_rel_skel, req.
   destruct (attr A_TYPE x) as [t|]; cbn [obind]; [|discriminate].
   destruct (ty_class t =? 1).
   { destruct (attr A_TARGET x) as [g|]; cbn [obind]; [|discriminate].
-    rewrite H. apply load_comments_skel_np; exact Hp. }
+    destruct (replace_range_ok g); [apply load_comments_skel_np|discriminate]. }
   destruct (ty_class t =? 2).
   { destruct (attr A_ID x); cbn [obind]; [|discriminate]. apply ignore_np.
     destruct (attr A_TARGET x); discriminate. }
   destruct (ty_class t =? 3); [|discriminate].
   destruct (attr A_TARGET x) as [g|]; cbn [obind]; [|discriminate].
   destruct (abs_part g); [apply load_table_skel_np|].
-  rewrite H. apply load_table_skel_np.
+  destruct (replace_range_ok g); [apply load_table_skel_np|discriminate].
+Qed.
+
+Lemma load_sheet_rels_skel_np p g : load_sheet_rels_skel p g <> Panic.
+Proof.
+  unfold load_sheet_rels_skel. destruct (ws_part g) as [part|]; [|discriminate].
+  destruct (lookup part (p_srels p)) as [[| |doc]|]; try discriminate.
+  apply oiter_np. intros; apply sheet_rel_skel_np.
 Qed.
 
 Lemma col_skel_np x : col_skel x <> Panic.
@@ -494,123 +282,42 @@ Proof.
   intros _ _. destruct (_ || _); discriminate.
 Qed.
 
-Lemma load_sheet_skel_np parts g :
-  parts_ok parts = true ->
-  load_sheet_skel parts g <> Panic.
+Lemma load_sheet_skel_np parts g : load_sheet_skel parts g <> Panic.
 Proof.
-  intros Hp. unfold load_sheet_skel. apply obind_np; [apply open_part_np|].
-  intros ws Hws. destruct (parts_ok_open _ _ _ Hp Hws) as [Hc _].
-  apply open_part_inv in Hws as [part [Hg L]].
+  unfold load_sheet_skel. apply obind_np; [apply open_part_np|]. intros ws _.
   apply obind_np.
   { unfold load_columns_skel. destruct (kids_with T_COLS ws) as [|c [|? ?]]; try discriminate.
     apply oiter_np. intros; apply col_skel_np. }
   intros _ _. apply obind_np.
   { unfold load_sheet_color_skel.
-    destruct (kids_with T_SHEETPR ws) as [|pr [|? ?]] eqn:E; try discriminate.
-    destruct (kids_with T_TABCOLOR pr) as [|tab [|? ?]] eqn:Et; try discriminate.
-    apply color_skel_np'. eapply all_color_kid; [|rewrite Et; left; reflexivity].
-    eapply all_color_kid; [exact Hc|rewrite E; left; reflexivity]. }
-  intros _ _. apply obind_np; [destruct (kids_with T_SHEETDATA ws); discriminate|].
+    destruct (kids_with T_SHEETPR ws) as [|pr [|? ?]]; try discriminate.
+    destruct (kids_with T_TABCOLOR pr) as [|tab [|? ?]]; try discriminate. apply color_skel_np. }
+  intros _ _. apply obind_np; [apply first_or_err_np|].
   intros sd _. apply obind_np; [apply oiter_np; intros; apply row_skel_np|].
   intros _ _. apply obind_np.
   { destruct (kids_with T_MERGECELLS ws) as [|m [|? ?]]; try discriminate. np. }
   intros _ _. apply oiter_np. intros h _. unfold hyperlink_skel. np.
 Qed.
 
-Lemma load_sheet_rels_skel_np p g :
-  parts_ok (p_parts p) = true ->
-  forallb (fun kf => tree_ok (fun d => forallb srel_node_ok (kids_with T_RELATIONSHIP d)) (snd kf)) (p_srels p) = true ->
-  ws_part g <> None ->
-  load_sheet_rels_skel p g <> Panic.
+Lemma load_sheets_skel_np p rels rids : load_sheets_skel p rels rids <> Panic.
 Proof.
-  intros Hp Hs Hg. unfold load_sheet_rels_skel.
-  destruct (ws_part g) as [part|]; [|congruence].
-  destruct (lookup part (p_srels p)) as [[| |doc]|] eqn:L; try discriminate.
-  apply lookup_in in L as [k' I]. rewrite forallb_forall in Hs. specialize (Hs _ I).
-  cbn [snd tree_ok] in Hs. rewrite forallb_forall in Hs.
-  apply oiter_np. intros x Hx. apply sheet_rel_skel_np; [exact Hp|apply Hs; exact Hx].
+  unfold load_sheets_skel. apply obind_np.
+  - apply oiter_np. intros rid _. unfold rel_index.
+    destruct (rel_lookup rid rels) as [rel|]; cbn [obind]; [|discriminate].
+    destruct (is_worksheet_rel rel); [apply load_sheet_rels_skel_np|discriminate].
+  - intros _ _. apply oiter_np. intros rid _. unfold rel_index.
+    destruct (rel_lookup rid rels) as [rel|]; cbn [obind]; [|discriminate].
+    destruct (is_worksheet_rel rel); [apply load_sheet_skel_np|discriminate].
 Qed.
 
 (* ---------------------------------------------------------------------------------------------- *)
-(* the main theorem *)
-
-Lemma is_ws_node_rel x r : rel_skel x = Ok r -> is_ws_node x = is_worksheet_rel r.
+Theorem load_skel_no_panic : forall p, load_skel p <> Panic.
 Proof.
-  intros H. apply rel_skel_inv in H as [_ [Ht _]].
-  unfold is_ws_node, is_worksheet_rel. rewrite Ht. reflexivity.
-Qed.
-
-Lemma id_matches_rel x r v : rel_skel x = Ok r -> id_matches v x = aval_eqb (r_id r) v.
-Proof.
-  intros H. apply rel_skel_inv in H as [Hi _]. unfold id_matches. rewrite Hi. reflexivity.
-Qed.
-
-Theorem guard_no_panic : forall p, guard p = true -> load_skel p <> Panic.
-Proof.
-  intros p G. unfold guard in G.
-  apply andb_true_iff in G as [G Gx].
-  apply andb_true_iff in G as [G Gsr].
-  apply andb_true_iff in G as [Gst Gp].
-  unfold load_skel.
+  intros p. unfold load_skel.
   apply obind_np; [destruct (p_sst p); discriminate|]. intros _ _.
-  apply obind_np; [apply load_workbook_np|]. intros [rids ndn] Hwb.
-  apply obind_np; [apply load_rels_np|]. intros rels Hrels.
-  apply obind_np; [apply load_styles_np; exact Gst|]. intros _ _.
-  apply load_workbook_inv in Hwb as [doc [Ewb [Hrids Hn]]].
-  apply load_rels_inv in Hrels as [rd [Erd Hrl]].
-  rewrite Ewb, Erd in Gx.
-  apply andb_true_iff in Gx as [Gws Gnames].
-  cbn [fst snd].
-  (* a relationship that is found comes from a Relationship node *)
-  assert (Hfound : forall rid rel, rel_lookup rid rels = Some rel ->
-            exists node, In node (desc_with T_RELATIONSHIP rd) /\ rel_skel node = Ok rel).
-  { intros rid rel El. destruct (rel_lookup_in _ _ _ El) as [Irel _].
-    destruct (omap_out _ _ _ _ Hrl Irel) as [node [Hnd End]]. exists node. auto. }
-  assert (Hloop : forall (body : aval -> outcome unit),
-            (forall rel node, In node (desc_with T_RELATIONSHIP rd) -> rel_skel node = Ok rel ->
-                              is_worksheet_rel rel = true -> body (r_target rel) <> Panic) ->
-            oiter (fun rid => obind (rel_index rels rid) (fun rel =>
-                     if is_worksheet_rel rel then body (r_target rel) else Ok tt)) rids <> Panic).
-  { intros body Hbody. apply oiter_np. intros rid Hin.
-    unfold rel_index. destruct (rel_lookup rid rels) as [rel|] eqn:El; cbn [obind]; [|discriminate].
-    destruct (Hfound _ _ El) as [node [Hnode Er]].
-    destruct (is_worksheet_rel rel) eqn:Ew; [|discriminate].
-    eapply Hbody; eassumption. }
-  assert (Hwsrel : forall rel node, In node (desc_with T_RELATIONSHIP rd) -> rel_skel node = Ok rel ->
-            is_worksheet_rel rel = true -> ws_part (r_target rel) <> None).
-  { intros rel node Hnode Er Ew.
-    rewrite forallb_forall in Gws. specialize (Gws _ Hnode). unfold ws_rel_ok in Gws.
-    rewrite (is_ws_node_rel _ _ Er), Ew in Gws.
-    destruct (rel_skel_inv _ _ Er) as [_ [_ Et]]. rewrite Et in Gws.
-    destruct (ws_part (r_target rel)); [discriminate|discriminate Gws]. }
-  apply obind_np.
-  { unfold load_sheets_skel. apply obind_np.
-    - apply Hloop. intros rel node Hnode Er Ew.
-      apply load_sheet_rels_skel_np; [exact Gp|exact Gsr|eapply Hwsrel; eassumption].
-    - intros _ _. apply Hloop. intros rel node Hnode Er Ew.
-      apply load_sheet_skel_np; exact Gp. }
-  intros _ _.
-  (* reparse_formula_hack *)
-  destruct (0 <? ndn) eqn:Ednn; [|discriminate]. cbn [andb].
-  destruct (loaded_worksheets rels rids) eqn:Elw; [|discriminate].
-  exfalso.
-  unfold names_have_sheet in Gnames. apply orb_true_iff in Gnames as [Gn|Gn].
-  { destruct (desc_with T_DEFINEDNAME doc); [|discriminate Gn].
-    cbn in Hn. subst ndn. discriminate. }
-  apply existsb_exists in Gn as [s [Hs Gn]].
-  destruct (attr A_RID s) as [v|] eqn:Ev; [|discriminate].
-  apply andb_true_iff in Gn as [Gex Gall]. rewrite forallb_forall in Gall.
-  destruct (omap_in _ _ _ _ Hrids Hs) as [v' [Ev' Iv']].
-  pose proof (sheet_skel_rid _ _ Ev') as Ev''. rewrite Ev in Ev''. inversion Ev''; subst v'.
-  apply existsb_exists in Gex as [node0 [Hnode0 Hm0]].
-  destruct (omap_in _ _ _ _ Hrl Hnode0) as [r0 [Er0 Ir0]].
-  rewrite (id_matches_rel _ _ _ Er0) in Hm0.
-  destruct (rel_lookup v rels) as [rel|] eqn:El; [|exfalso; eapply rel_lookup_some; eassumption].
-  destruct (Hfound _ _ El) as [node [Hnode Er]].
-  destruct (rel_lookup_in _ _ _ El) as [_ Em].
-  specialize (Gall _ Hnode). rewrite (id_matches_rel _ _ _ Er), Em in Gall. cbn [implb] in Gall.
-  rewrite (is_ws_node_rel _ _ Er) in Gall.
-  assert (Hin : In v (loaded_worksheets rels rids)).
-  { unfold loaded_worksheets. apply filter_In. split; [exact Iv'|]. rewrite El. exact Gall. }
-  rewrite Elw in Hin. destruct Hin.
+  apply obind_np; [apply load_workbook_np|]. intros wb _.
+  apply obind_np; [apply load_rels_np|]. intros rels _.
+  apply obind_np; [apply load_styles_np|]. intros _ _.
+  apply obind_np; [apply load_sheets_skel_np|]. intros _ _.
+  destruct (_ && _); discriminate.
 Qed.
